@@ -62,7 +62,9 @@ def run(ctx):
                     n_offsets=n_off, jitter=ps["s"], many_rows=many)
         try:
             joker = TheJoker(pb.prior, rng=np.random.default_rng([ctx.seed, i]))
-            post = joker.rejection_sample(pb.data, pb.lib, in_memory=True, max_posterior_samples=9)
+            with_lp = bool(rng.random() < 0.5)
+            desc["samples_carry_logprobs"] = with_lp
+            post = joker.rejection_sample(pb.data, pb.lib, in_memory=True, max_posterior_samples=9, return_logprobs=with_lp)
             if not many:
                 post = post[int(rng.integers(0, len(post)))]
             units_before = {k: str(v) for k, v in pb.prior.par_units.items()}
@@ -98,7 +100,7 @@ def run(ctx):
             for k in range(1, n_off + 1):
                 punits["dv0_%d" % k] = gen.U(ps["offsets"][k - 1]["unit"])
             ctx.evaluations += 1
-            ctx.distinct.add(repr(("mcmc_init", unit_cls, many)))
+            ctx.distinct.add(repr(("mcmc_init", unit_cls, many, with_lp)))
             for nm in names:
                 col = post[nm]
                 want = float(np.atleast_1d(col.to_value(punits[nm]) if hasattr(col, "to_value") else np.asarray(col))[j])
